@@ -885,7 +885,8 @@ func (x *Exec) Call(st *State, fn *ssa.Function, args []Value, bind []Value, dep
 	if len(fn.Blocks) == 0 || (!x.isRepo(fn) && !inlineStd(name)) {
 		return x.external(st, fn, args, site)
 	}
-	if c := x.w.contractFor(fn); c != nil && c.Modular && !(x.cur != nil && x.cur.fn == fn && depth == 0) && x.specDepth == 0 {
+	if c := x.w.contractFor(fn); c != nil && c.Modular && !(x.cur != nil && x.cur.fn == fn && depth == 0) && x.specDepth == 0 &&
+		!(c.Trusted && x.cur != nil && x.cur.c.Harness != "") { // harness lemmas are the proofs behind trusted summaries: they see the body
 		return x.applyContract(st, fn, c, args, site)
 	}
 	if strings.HasPrefix(name, "verif/spec") {
@@ -996,12 +997,29 @@ func (x *Exec) mergeStates(entry *State, outs []Outcome, val func(Outcome) Value
 }
 
 func mergeEvents(n int, c *Term, a, b []Event) []Event {
-	// common prefix of length n; suffix events get guarded
+	// common prefix of length n; the suffixes are merged position by position: the same call made on both
+	// paths is one event whose guard is selected by the branch condition
 	out := append([]Event(nil), a[:n]...)
-	for _, e := range a[n:] {
+	sa, sb := a[n:], b[n:]
+	same := func(x, y Event) bool {
+		if x.Callee != y.Callee || len(x.Args) != len(y.Args) {
+			return false
+		}
+		for i := range x.Args {
+			if x.Args[i] != y.Args[i] {
+				return false
+			}
+		}
+		return true
+	}
+	i := 0
+	for ; i < len(sa) && i < len(sb) && same(sa[i], sb[i]); i++ {
+		out = append(out, Event{Guard: Ite(c, sa[i].Guard, sb[i].Guard), Callee: sa[i].Callee, Args: sa[i].Args})
+	}
+	for _, e := range sa[i:] {
 		out = append(out, Event{Guard: And(c, e.Guard), Callee: e.Callee, Args: e.Args})
 	}
-	for _, e := range b[n:] {
+	for _, e := range sb[i:] {
 		out = append(out, Event{Guard: And(Not(c), e.Guard), Callee: e.Callee, Args: e.Args})
 	}
 	return out
@@ -1610,6 +1628,15 @@ func (x *Exec) toIdx(v Value, t types.Type) *Term {
 func (x *Exec) doCall(st *State, fr *Frame, in *ssa.Call) []Outcome {
 	c := in.Call
 	site := fnName(fr.fn) + ":" + x.site(fr, in)
+	if x.cur != nil && fr.top && x.cur.fn == fr.fn && x.cur.c.SiteAsserts != nil {
+		if as, ok := x.cur.c.SiteAsserts[x.site(fr, in)]; ok {
+			e := x.cur.env(x, st, fr)
+			for i, a := range as {
+				x.record(Oblig{Name: fmt.Sprintf("%s#at.%s.assert%d", fnName(fr.fn), x.site(fr, in), i+1), Cond: e.Formula(a), PC: st.PC(), Kind: "assert", Fn: fnName(fr.fn)})
+			}
+			x.cur.sitesSeen[x.site(fr, in)] = true
+		}
+	}
 	var args []Value
 	for _, a := range c.Args {
 		args = append(args, x.val(fr, a))
